@@ -1,6 +1,6 @@
 """C16 — checksums: call shape of the update functions, single writers of the running sums, C wrappers (structural clauses)."""
 import paths
-from mir import callee_name
+from mir import callee_name, callee_id
 from terms import tstr, is_const, const_val
 from rules.util import *
 from rules import inflate_core as ic
@@ -123,6 +123,9 @@ def rule_decoder_sum(ctx, cfg, r):
                 "agg" in s["a"][1] and s["a"][1]["agg"].get("def", "").endswith("DecompressorOxide") for blk in f.blocks for s in blk["s"] if "a" in s):
             direct.append(w)
     extra = [d for d in direct if d not in allowed_direct and "Clone" not in d and "closure" not in d and "Deserialize" not in d and "serde" not in d]
+    # a helper the reference tree does not have is evaluated inline by the state-machine rows above (its stores were judged there, in
+    # the arm that calls it) — provided nothing but an allowed writer or another such helper calls it
+    extra = [d for d in extra if not helper_only_called_from(c, d, allowed_direct)]
     if extra:
         r.fail("<crate>", "direct-writers", "check_adler32 is assigned directly in %s" % extra)
     else:
